@@ -39,6 +39,7 @@ type item struct {
 	Width  int    `json:"width"`
 	Signed bool   `json:"signed"`
 	As     string `json:"as"` // optional Coq name
+	Field  string `json:"field"` // table of struct literals: the field to take
 }
 
 type spec struct {
@@ -312,7 +313,26 @@ func (p *pkgInfo) table(it item) []*big.Int {
 			idx = int(p.eval(kv.Key, 0).Int64())
 			el = kv.Value
 		}
-		vals[idx] = p.eval(el, 0)
+		if it.Field != "" {
+			// element is a struct literal {Field: value, ...}; a missing key is 0
+			sl, ok := el.(*ast.CompositeLit)
+			if !ok {
+				fail(p.fset.Position(el.Pos()), "table %s: element is not a struct literal", it.Name)
+			}
+			v := big.NewInt(0)
+			for _, fe := range sl.Elts {
+				kv, ok := fe.(*ast.KeyValueExpr)
+				if !ok {
+					fail(p.fset.Position(fe.Pos()), "table %s: struct literal without field names", it.Name)
+				}
+				if id, ok := kv.Key.(*ast.Ident); ok && id.Name == it.Field {
+					v = p.eval(kv.Value, 0)
+				}
+			}
+			vals[idx] = v
+		} else {
+			vals[idx] = p.eval(el, 0)
+		}
 		if idx > maxIdx {
 			maxIdx = idx
 		}
